@@ -35,8 +35,8 @@ DESC_POOL = ['plain', 'multi\nline\ntext', 'x: y', '#not a comment', "it's", ' s
 PRIO_POOL = [0, 1, -1, 2, -3, 5, 100]
 LEVELS = {
     'quick': [
-        {'name': 'L1-names-N4-M1', 'mode': 'names', 'N': 4, 'M': 1, 'K': 2, 'offsets': 3, 'budget_s': 100},
-        {'name': 'L2-code-N4-M1', 'mode': 'code', 'N': 4, 'M': 1, 'K': 2, 'offsets': 3, 'budget_s': 100},
+        {'name': 'L1-names-N4-M1', 'mode': 'names', 'N': 4, 'M': 1, 'K': 1, 'offsets': 2, 'budget_s': 100},
+        {'name': 'L2-code-N4-M1', 'mode': 'code', 'N': 4, 'M': 1, 'K': 1, 'offsets': 2, 'budget_s': 100},
         {'name': 'L2b-code-N3-M2', 'mode': 'code', 'N': 3, 'M': 2, 'K': 1, 'offsets': 4, 'budget_s': 60},
         {'name': 'L3-dict-N3-M2', 'mode': 'dict', 'N': 3, 'M': 2, 'budget_s': 40},
         {'name': 'L4-names-N3-M1-alloff', 'mode': 'names', 'N': 3, 'M': 1, 'K': 1, 'offsets': 'all', 'budget_s': 60},
